@@ -216,6 +216,29 @@ pub fn menu_ext() -> Vec<Def> {
     m
 }
 
+/// `menu()` plus two derivative definitions whose asset roles do not coincide (index and derived layers of C11):
+pub fn menu_ext2() -> Vec<Def> {
+    use InstrumentQuoteAsset::UnderlyingQuote as UQ;
+    let mut m = menu();
+    // In the base menu the future settles in its quote asset and the option in its base asset, and only spot
+    // definitions carry a quantity-unit asset: a resolution that takes "the quote" / "the base" for the settlement
+    // asset, or registers unit assets for spot instruments only, gives the same tables there. These two do not
+    // coincide: a future settled in a third asset and sized in an asset nothing else on the exchange uses, and an
+    // option settled in a third asset.
+    m.push(Instrument::new(ExchangeId::Okx, "eth_usd_fut.okx", "ETH-USD-250328",
+        Underlying::new(a("eth", "ETH"), a("usd", "USD")), UQ,
+        InstrumentKind::Future(FutureContract { contract_size: Decimal::new(1, 1), settlement_asset: a("usdc", "USDC"), expiry: expiry() }),
+        spec(OrderQuantityUnits::Asset(a("okb", "OKB")))));
+    m.push(Instrument::new(ExchangeId::Okx, "eth_usd_opt.okx", "ETH-USD-250328-3000-P",
+        Underlying::new(a("eth", "ETH"), a("usd", "USD")), UQ,
+        InstrumentKind::Option(OptionContract {
+            contract_size: Decimal::ONE, settlement_asset: a("usdt", "USDT"), kind: OptionKind::Put,
+            exercise: OptionExercise::American, expiry: expiry(), strike: Decimal::from(3_000),
+        }),
+        spec(OrderQuantityUnits::Asset(a("eth", "ETH")))));
+    m
+}
+
 /// The asset references of a definition, by role.
 pub fn roles(d: &Def) -> Vec<(&'static str, Asset)> {
     let mut v = vec![("base", d.underlying.base.clone()), ("quote", d.underlying.quote.clone())];
@@ -1087,6 +1110,7 @@ impl IndexSweep<'_> {
 fn menu_by_name(name: Option<&str>) -> Vec<Def> {
     match name {
         Some("ext") => menu_ext(),
+        Some("ext2") => menu_ext2(),
         _ => menu(),
     }
 }
@@ -1114,6 +1138,22 @@ pub fn run(ctx: &Ctx) -> Outcome {
         perm_evals: AtomicU64::new(0), distinct: &distinct, samples: &samples,
     };
     ext_sweep.run(ext_max_len, (ext_max_len + 1)..=ext_max_perm);
+    // second extended menu (asset roles that do not coincide): a defect of role resolution shows on one
+    // definition, so a smaller sweep is enough
+    let ext2 = menu_ext2();
+    let ext2_max_len: usize = ctx.tier.pick(3, 4);
+    let ext2_max_perm: usize = ctx.tier.pick(4, 5);
+    let ext2_sweep = IndexSweep {
+        ctx, menu: &ext2, menu_name: "ext2", must_contain: Some(menu.len()), evaluations: AtomicU64::new(0), with_dups: AtomicU64::new(0),
+        perm_evals: AtomicU64::new(0), distinct: &distinct, samples: &samples,
+    };
+    // (diagnostic switch, used to show that this menu is what detects a given change: C11_DISABLE=ext2)
+    let ext2_on = !std::env::var("C11_DISABLE").unwrap_or_default().contains("ext2");
+    if !ext2_on {
+        eprintln!("C11: second extended menu disabled for diagnosis - this run is not evidence");
+    } else {
+        ext2_sweep.run(ext2_max_len, (ext2_max_len + 1)..=ext2_max_perm);
+    }
 
     // ---- layers derived + links: every distinct non-empty set of definitions of the extended menu (derived);
     // links: every set of the base menu, and every set with the Mock definition and at most one definition per
@@ -1150,9 +1190,24 @@ pub fn run(ctx: &Ctx) -> Outcome {
         }
     });
 
+    // derived tables for every set of the second extended menu that uses one of its extra definitions
+    (1u32..(1 << ext2.len())).into_par_iter().filter(|mask| ext2_on && mask >> menu.len() != 0).for_each(|mask| {
+        let set: Vec<usize> = (0..ext2.len()).filter(|i| mask & (1 << i) != 0).collect();
+        let (viols, ix) = eval_index(&ext2, &set);
+        let index_ok = viols.is_empty();
+        for (sig, detail) in viols {
+            ctx.violate(sig, detail, json!({"layer": "index", "menu": "ext2", "seq": set}));
+        }
+        let Some(ix) = ix.filter(|_| index_ok) else { return };
+        derived_evals.fetch_add(1, Ordering::Relaxed);
+        for (sig, detail) in check_derived(&ix) {
+            ctx.violate(sig, detail, json!({"layer": "derived", "menu": "ext2", "set": set}));
+        }
+    });
+
     let ld = |a: &AtomicU64| a.load(Ordering::Relaxed);
-    let evals = ld(&base_sweep.evaluations) + ld(&ext_sweep.evaluations);
-    let perm_evals = ld(&base_sweep.perm_evals) + ld(&ext_sweep.perm_evals);
+    let evals = ld(&base_sweep.evaluations) + ld(&ext_sweep.evaluations) + ld(&ext2_sweep.evaluations);
+    let perm_evals = ld(&base_sweep.perm_evals) + ld(&ext_sweep.perm_evals) + ld(&ext2_sweep.perm_evals);
     Outcome {
         level: "exploration",
         coverage: json!({
@@ -1163,7 +1218,11 @@ pub fn run(ctx: &Ctx) -> Outcome {
             "index_permutations_longer_than_max_sequence_length": perm_evals,
             "index_permutations_base_menu": ld(&base_sweep.perm_evals),
             "index_permutations_using_an_extended_menu_definition": ld(&ext_sweep.perm_evals),
-            "index_sequences_with_duplicates": ld(&base_sweep.with_dups) + ld(&ext_sweep.with_dups),
+            "index_sequences_using_a_second_extended_menu_definition": ld(&ext2_sweep.evaluations),
+            "index_permutations_using_a_second_extended_menu_definition": ld(&ext2_sweep.perm_evals),
+            "second_extended_menu_max_sequence_length": ext2_max_len,
+            "second_extended_menu_max_permutation_size": ext2_max_perm,
+            "index_sequences_with_duplicates": ld(&base_sweep.with_dups) + ld(&ext_sweep.with_dups) + ld(&ext2_sweep.with_dups),
             "distinct_nontrivial": distinct.len(),
             "derived_sets": ld(&derived_evals),
             "execution_link_runs": ld(&link_runs),
@@ -1175,14 +1234,14 @@ pub fn run(ctx: &Ctx) -> Outcome {
             "extended_menu_max_sequence_length": ext_max_len,
             "extended_menu_max_permutation_size": ext_max_perm,
             "exhaustive": true,
-            "rule": "every sequence (repetition allowed => duplicates, every insertion order) of length <= max_sequence_length over the 8-definition menu, plus every permutation of every larger subset up to max_permutation_size definitions, and the same (up to the extended bounds) over the 10-definition extended menu for the inputs that use one of its two extra definitions, through the real IndexedInstrumentsBuilder and also through IndexedInstruments::new and FromIterator (judged by the same oracle whenever their result differs from the builder's), oracle from the definitions; every non-empty subset of the extended menu through EngineStateBuilder / update_from_account / account-snapshot generation; every subset of the base menu and every one-definition-per-exchange subset containing the Mock exchange x (exchanges with client, add order) through ExecutionBuilder with manager futures polled by hand on a paused runtime",
+            "rule": "every sequence (repetition allowed => duplicates, every insertion order) of length <= max_sequence_length over the 8-definition menu, plus every permutation of every larger subset up to max_permutation_size definitions, and the same (up to the extended bounds) over the 10-definition extended menu for the inputs that use one of its two extra definitions, and (up to the second extended bounds) over a second 10-definition menu whose two extra definitions are a future and an option with non-coinciding asset roles, through the real IndexedInstrumentsBuilder and also through IndexedInstruments::new and FromIterator (judged by the same oracle whenever their result differs from the builder's), oracle from the definitions; every non-empty subset of the extended menu and every subset of the second extended menu that uses one of its extra definitions through EngineStateBuilder / update_from_account / account-snapshot generation; every subset of the base menu and every one-definition-per-exchange subset containing the Mock exchange x (exchanges with client, add order) through ExecutionBuilder with manager futures polled by hand on a paused runtime",
             "samples": samples.take().into_iter().sorted_by_key(|v| v.to_string()).take(6).collect::<Vec<_>>(),
         }),
         assumptions: vec![
             "InstrumentNameInternal identifies an instrument (unique across exchanges) and an exchange names an asset one way (documented contracts)".into(),
-            "menu of 8 definitions over 3 exchanges (spot, perpetual, future, option; settlement-only and unit-only assets; shared asset names); extended menu adds a definition whose smallest asset equals the largest asset of the previous exchange, and a fourth exchange (Mock) whose ExchangeId order, name order and order of addition all differ".into(),
+            "menu of 8 definitions over 3 exchanges (spot, perpetual, future, option; settlement-only and unit-only assets; shared asset names); extended menu adds a definition whose smallest asset equals the largest asset of the previous exchange, a fourth exchange (Mock) whose ExchangeId order, name order and order of addition all differ; second extended menu adds a future and an option settled in an asset that is neither their base nor their quote, and a future sized in a unit asset nothing else uses".into(),
             "execution links: stub ExecutionClient per exchange; link routing observed with one Shutdown per link".into(),
-        ],
+        ].into_iter().chain((!ext2_on).then(|| "DIAGNOSTIC RUN - NOT EVIDENCE: second extended menu disabled through C11_DISABLE=ext2".to_string())).collect(),
     }
 }
 
